@@ -48,15 +48,21 @@ def _junk(seed):
     return junk
 
 
+DECODE_ONLY = ("floatx", "partial")   # families beyond "all valid blocks (as in C01)": layout-conformant bytes, judged on the read side only
+
+
 def check_one(sp, opts, acc, tag=""):
     t, fmt = sp["type"], sp["format"]
     canon = R.encode_block(sp)
-    try:
-        obj = specs.build(sp, **opts)
-        written = specs.lib_encode(obj)
-        acc.n["transitions"] += 2
-    except Exception as e:
-        raise shape.viol(PROP, sp, "valid-block-refused", tag, f"{type(e).__name__}: {e}", type(e).__name__)
+    if tag.split("/")[0] in DECODE_ONLY:
+        written = canon
+    else:
+        try:
+            obj = specs.build(sp, **opts)
+            written = specs.lib_encode(obj)
+            acc.n["transitions"] += 2
+        except Exception as e:
+            raise shape.viol(PROP, sp, "valid-block-refused", tag, f"{type(e).__name__}: {e}", type(e).__name__)
     if written != canon:
         i = next((i for i, (x, y) in enumerate(zip(written, canon)) if x != y), min(len(written), len(canon)))
         raise shape.viol(PROP, sp, "written!=layout", tag,
